@@ -625,6 +625,8 @@ func Eval(c Case) ([]string, string) {
 		return evalMigrateDryRun(c)
 	case "migrate_fkcommit":
 		return evalFKCommit(c), ""
+	case "migrate_lockcommit":
+		return evalLockCommit(c), ""
 	default:
 		return evalSchema(c)
 	}
@@ -685,8 +687,80 @@ func evalFKCommit(c Case) (problems []string) {
 	return
 }
 
+// evalLockCommit: the COMMIT of a file's transaction fails for a reason outside the file: another
+// connection holds a read transaction on the database, so the commit cannot get its lock
+// (SQLITE_BUSY). Extra "fk_on": the connection enforces foreign keys (the driver then wraps the
+// transaction in its own bookkeeping), "": it does not.
+func evalLockCommit(c Case) (problems []string) {
+	bad := func(f string, a ...any) { problems = append(problems, fmt.Sprintf(f, a...)) }
+	w, err := clih.NewWork()
+	if err != nil {
+		return []string{"harness: " + err.Error()}
+	}
+	defer w.Close()
+	if err := w.WriteDir("migrations", map[string]string{
+		"1_f.sql": "CREATE TABLE journal (sid integer NOT NULL);\nINSERT INTO journal (sid) VALUES (11);\n",
+		"2_f.sql": "INSERT INTO journal (sid) VALUES (21);\nINSERT INTO journal (sid) VALUES (22);\n",
+		"3_f.sql": "INSERT INTO journal (sid) VALUES (31);\n",
+	}); err != nil {
+		return []string{"harness: " + err.Error()}
+	}
+	url := "sqlite://" + w.Path("db.sqlite") + "?_busy_timeout=50"
+	if c.Extra == "fk_on" {
+		url += "&_fk=1"
+	}
+	apply := func(args ...string) clih.Result {
+		return w.Run(nil, append([]string{"migrate", "apply", "--dir", "file://" + w.Path("migrations"), "--url", url, "--tx-mode", c.Mode}, args...)...)
+	}
+	if r := apply("1"); r.Exit != 0 {
+		return []string{"harness: applying the first file failed: " + r.String()}
+	}
+	release, err := w.HoldReadLock("db.sqlite")
+	if err != nil {
+		return []string{"harness: " + err.Error()}
+	}
+	r := apply()
+	release()
+	j, _ := w.Query("db.sqlite", "SELECT sid FROM journal ORDER BY rowid")
+	revs, _ := w.Revisions("db.sqlite")
+	if fmt.Sprint(j) != "[[11]]" {
+		if r.Exit == 0 {
+			bad("no commit can get through while the database is read-locked, yet rows of the files are there: journal %v", j)
+		} else {
+			bad("after the failed commit statements of the files remain: journal %v", j)
+		}
+	}
+	for _, v := range []string{"2", "3"} {
+		if rv, ok := revs[v]; ok && rv[0] != "0" {
+			bad("after the failed commit revision %s records applied=%s total=%s", v, rv[0], rv[1])
+		}
+	}
+	if r.Exit == 0 {
+		bad("the commit of file 2 cannot have succeeded (journal %v, revisions %v), yet the command exited 0: %s", j, revs, r)
+	}
+	// the same command again, nobody in the way.
+	if r2 := apply(); r2.Exit != 0 {
+		bad("the same command again, without the lock, fails: %s", r2)
+		return
+	}
+	j, _ = w.Query("db.sqlite", "SELECT sid FROM journal ORDER BY rowid")
+	if fmt.Sprint(j) != "[[11] [21] [22] [31]]" {
+		bad("after the second run the journal is %v, expected every statement once, in order", j)
+	}
+	revs, _ = w.Revisions("db.sqlite")
+	for v, n := range map[string]string{"1": "2", "2": "2", "3": "1"} {
+		if rv := revs[v]; rv[0] != n || rv[1] != n || rv[2] != "" {
+			bad("after the second run revision %s is applied=%s total=%s error=%q", v, rv[0], rv[1], rv[2])
+		}
+	}
+	return
+}
+
 func cases(tier string) []Case {
 	var cs []Case
+	for _, mode := range []string{"file", "all"} {
+		cs = append(cs, Case{Kind: "migrate_lockcommit", Mode: mode, FailF: -1}, Case{Kind: "migrate_lockcommit", Mode: mode, FailF: -1, Extra: "fk_on"})
+	}
 	for _, mode := range []string{"file", "all"} {
 		cs = append(cs, Case{Kind: "migrate_fkcommit", Mode: mode, FailF: -1}, Case{Kind: "migrate_fkcommit", Mode: mode, FailF: -1, Extra: "two_for_one"})
 	}
@@ -818,7 +892,7 @@ func classify(c Case, problems []string) string {
 
 func Run(r *report.Run) {
 	defer clih.Cleanup()
-	r.Rule = "real CLI on real SQLite files: (1) `migrate apply`: directory shapes (1-3 files x 1-3 statements, and directories with a checkpoint file preceded by older files) x a really failing statement (naming a missing table; for the plain directories also a constraint violation with the SQLite conflict clause OR ROLLBACK) at every position x tx-mode {file, all, none} x per-file txmode directive on the failing / preceding file x apply count {all, 1, 2} (plus every pair of failing positions in one file, repaired one after the other): the state after the failure (journal rows written by the statements themselves + revision rows, read by our own connection) must equal what the mode promises, and after repairing the file and re-running the full dump must equal that of a run that never failed; (1b) a failure of the commit itself: the SQLite driver refuses to commit a transaction that adds a foreign-key violation; on a database that already holds one (two) orphan rows the first file replaces them by another orphan (same / lower count): file and all mode must fail and keep nothing; (2) `migrate apply --dry-run` from 5 start states (fresh, partially applied, one file applied, fully applied, non-empty without history) x modes x count x {--baseline, --allow-dirty}: dump and directory byte-identical; (3) `schema apply` on populated tables whose plan fails midway on the data, default / file / none tx-mode, approved by --auto-approve or at the prompt, and --dry-run; non-trivial = every case; distinct = the case tuple"
+	r.Rule = "real CLI on real SQLite files: (1) `migrate apply`: directory shapes (1-3 files x 1-3 statements, and directories with a checkpoint file preceded by older files) x a really failing statement (naming a missing table; for the plain directories also a constraint violation with the SQLite conflict clause OR ROLLBACK) at every position x tx-mode {file, all, none} x per-file txmode directive on the failing / preceding file x apply count {all, 1, 2} (plus every pair of failing positions in one file, repaired one after the other): the state after the failure (journal rows written by the statements themselves + revision rows, read by our own connection) must equal what the mode promises, and after repairing the file and re-running the full dump must equal that of a run that never failed; (1b) a failure of the commit itself: the SQLite driver refuses to commit a transaction that adds a foreign-key violation; on a database that already holds one (two) orphan rows the first file replaces them by another orphan (same / lower count): file and all mode must fail and keep nothing; (1c) a commit that fails for a reason outside the file: another connection holds a read transaction on the database while the files are applied (connection with and without foreign-key enforcement): the command must fail, keep nothing of the files, and the same command again must complete; (2) `migrate apply --dry-run` from 5 start states (fresh, partially applied, one file applied, fully applied, non-empty without history) x modes x count x {--baseline, --allow-dirty}: dump and directory byte-identical; (3) `schema apply` on populated tables whose plan fails midway on the data, default / file / none tx-mode, approved by --auto-approve or at the prompt, and --dry-run; non-trivial = every case; distinct = the case tuple"
 	r.Assumptions = []string{
 		"after a repair the hash / partial_hashes columns of the revision row legitimately differ from a never-failed run and are masked; timestamps are masked",
 		"`--tx-mode all` with per-file txmode directives is rejected by the CLI and not enumerated",
